@@ -15,6 +15,7 @@ EXPL = ("Decides: SA-VIS: the representation of all hash/target/generator types 
 
 def run(ctx):
     cfgs = ["rel", "dbg"] if ctx.tier == "quick" else ["rel", "dbg", "strict", "unsafe", "unchecked", "nodef"]
+    ctx.progs(cfgs)  # build all configurations in parallel
     for c in cfgs:
         prog = ctx.prog(c)
         if c in ("dbg",):
